@@ -50,3 +50,11 @@ Definition occ_count (states : list (list Z)) (k : Z) : Z :=
   zsum (map (fun col => Z.of_nat (length (filter (Z.eqb k) col))) states).
 Definition visited_count (states : list (list Z)) : Z :=
   zsum (map (fun col => Z.of_nat (length (filter (fun x => negb (x =? -1)) col))) states).
+
+(* occupancy as the code computes it: np.unique counts over the whole (flattened) state table; occupancies.get(i, 0) *)
+Definition occ_flat (states : list (list Z)) (i : Z) : Z := Z.of_nat (length (filter (Z.eqb i) (concat states))).
+(* occupancy_by_site_type / atom_locations: sum over the sites carrying label la (numerator over the number of frames), and their number *)
+Definition label_num (labels : list Z) (states : list (list Z)) (n : nat) (la : Z) : Z :=
+  zsum (map (fun k => if lab labels k =? la then occ_flat states k else 0) (zrange 0 n)).
+Definition label_sites (labels : list Z) (n : nat) (la : Z) : Z :=
+  zsum (map (fun k => if lab labels k =? la then 1 else 0) (zrange 0 n)).
